@@ -1,13 +1,11 @@
 (* Model of head.Header (head/header.go, head/stamps.go, head/link.go) and dsig.Digest
    (dsig/digest.go).  No proofs in this file.
 
-   Strings are byte lists.  A Go pointer that may be nil is an [option]; a function whose Go
-   original can dereference nil returns [result] with an explicit [Panic].
-
-   Two readings of the nil-sensitive functions are kept side by side:
-     *_shipped   the code of the repository as it stands (nil dereferences = Panic);
-     (no suffix) the code after the proposed repair fixes/C10-11-nil-guards.diff (total).
-   [Lifecycle.v] selects between them with the [fixes] record.
+   Strings are byte lists.  A Go pointer that may be nil is an [option].  Since commit 3e1b1c1
+   ("nil guards in header, signature and envelope verification") every function of this file
+   skips nil entries and treats a nil receiver / nil digest as "not contained"; before it
+   Contains, detectDuplicateLinks, Stamp.In, AddStamp and AppendLink dereferenced nil (defect 11
+   of DESIGN.md section 8, now under "fixed" in findings/C10.json, its witnesses still run).
 
    Outside the model (domain of the correspondence): the per-element validation of stamps
    and links (non-empty provider/value/key, key pattern, URL syntax), uuid version checks, the
@@ -62,9 +60,8 @@ Fixpoint lookup (k : str) (m : list (str * str)) : option str :=
   end.
 
 (* ------------------------------------------------------------------------------------------
-   Header.Contains, repaired reading: nil receiver or nil digest in the receiver = not
-   contained; nil entries are skipped.  One conjunct per compared member, in the order of
-   the Go code. *)
+   Header.Contains: nil receiver or nil digest in the receiver = not contained; nil entries
+   are skipped.  One conjunct per compared member, in the order of the Go code. *)
 Definition stamp_in (hs : list (option stamp)) (s2 : stamp) : bool :=
   existsb (fun s => match s with Some a => stamp_eq a s2 | None => false end) hs.
 Definition link_in (hl : list (option link)) (l2 : link) : bool :=
@@ -101,84 +98,19 @@ Definition contains_opt (h : option header) (h2 : header) : bool :=
   match h with None => false | Some h => contains h h2 end.
 
 (* ------------------------------------------------------------------------------------------
-   Header.Contains as shipped: h.UUID on a nil receiver, h.Digest.String() on a nil digest,
-   s.Provider / s2.Provider / l.Key / l2.Key on nil entries panic.  The loops stop at the first
-   failed comparison, so a panic behind it is not reached. *)
-Fixpoint stamp_in_shipped (hs : list (option stamp)) (s2 : option stamp) : result bool :=
-  match hs with
-  | [] => Ok false
-  | s :: r => match s, s2 with
-              | Some a, Some b => if stamp_eq a b then Ok true else stamp_in_shipped r s2
-              | _, _ => Panic
-              end
-  end.
-Fixpoint c_stamps_shipped (hs : list (option stamp)) (h2s : list (option stamp)) : result bool :=
-  match h2s with
-  | [] => Ok true
-  | s2 :: r => match stamp_in_shipped hs s2 with
-               | Ok true => c_stamps_shipped hs r
-               | x => x
-               end
-  end.
-Fixpoint link_in_shipped (hl : list (option link)) (l2 : option link) : result bool :=
-  match hl with
-  | [] => Ok false
-  | l :: r => match l, l2 with
-              | Some a, Some b => if link_eq a b then Ok true else link_in_shipped r l2
-              | _, _ => Panic
-              end
-  end.
-Fixpoint c_links_shipped (hl : list (option link)) (h2l : list (option link)) : result bool :=
-  match h2l with
-  | [] => Ok true
-  | l2 :: r => match link_in_shipped hl l2 with
-               | Ok true => c_links_shipped hl r
-               | x => x
-               end
-  end.
-
-Definition contains_shipped (ho : option header) (h2 : header) : result bool :=
-  match ho with
-  | None => Panic
-  | Some h =>
-    if negb (c_uuid h h2) then Ok false else
-    match dig h2, dig h with
-    | Some _, None => Panic
-    | _, _ =>
-      if negb (c_dig h h2) then Ok false else
-      match c_stamps_shipped (stamps h) (stamps h2) with
-      | Ok true =>
-        match c_links_shipped (links h) (links h2) with
-        | Ok true => Ok (c_tags h h2 && c_meta h h2 && c_notes h h2)
-        | x => x
-        end
-      | x => x
-      end
-    end
-  end.
-
-(* ------------------------------------------------------------------------------------------
    head.AddStamp / head.AppendLink: replace the entry with the same provider / key in place,
-   otherwise append.  v.Provider on a nil entry panics (unchanged by the repair). *)
-Fixpoint add_stamp (l : list (option stamp)) (s : stamp) : result (list (option stamp)) :=
+   otherwise append; nil entries are stepped over. *)
+Fixpoint add_stamp (l : list (option stamp)) (s : stamp) : list (option stamp) :=
   match l with
-  | [] => Ok [Some s]
-  | None :: _ => Panic
-  | Some v :: r => if seqb (prv v) (prv s) then Ok (Some s :: r)
-                   else match add_stamp r s with
-                        | Ok r' => Ok (Some v :: r')
-                        | x => x
-                        end
+  | [] => [Some s]
+  | None :: r => None :: add_stamp r s
+  | Some v :: r => if seqb (prv v) (prv s) then Some s :: r else Some v :: add_stamp r s
   end.
-Fixpoint append_link (l : list (option link)) (n : link) : result (list (option link)) :=
+Fixpoint append_link (l : list (option link)) (n : link) : list (option link) :=
   match l with
-  | [] => Ok [Some n]
-  | None :: _ => Panic
-  | Some v :: r => if seqb (lkey v) (lkey n) then Ok (Some n :: r)
-                   else match append_link r n with
-                        | Ok r' => Ok (Some v :: r')
-                        | x => x
-                        end
+  | [] => [Some n]
+  | None :: r => None :: append_link r n
+  | Some v :: r => if seqb (lkey v) (lkey n) then Some n :: r else Some v :: append_link r n
   end.
 
 Fixpoint set_meta (m : list (str * str)) (k v : str) : list (str * str) :=
@@ -191,50 +123,32 @@ Definition rm_meta (m : list (str * str)) (k : str) : list (str * str) :=
 
 (* ------------------------------------------------------------------------------------------
    Header.ValidateWithContext.  The validation library evaluates every field (errors are
-   collected), inside a field the rules in order up to the first error.  Three-valued
-   verdict; a panic in a later field happens whatever the earlier fields said. *)
-Inductive v3 := VOk | VErr | VPanic.
+   collected), inside a field the rules in order up to the first error. *)
+Inductive v3 := VOk | VErr.
 Definition v3_and (a b : v3) : v3 :=
   match a with
-  | VPanic => VPanic
-  | VErr => match b with VPanic => VPanic | _ => VErr end
+  | VErr => VErr
   | VOk => b
   end.
 
-(* detectDuplicateStamps: v.In(set) compares v.Provider with every r.Provider of the set *)
-Fixpoint stamp_in_set (v : option stamp) (set : list (option stamp)) : result bool :=
-  match set with
-  | [] => Ok false
-  | r :: t => match v, r with
-              | Some a, Some b => if seqb (prv a) (prv b) then Ok true else stamp_in_set v t
-              | _, _ => Panic
-              end
-  end.
-Fixpoint detect_dup_stamps (set vs : list (option stamp)) : v3 :=
+(* detectDuplicateStamps: nil entries are skipped; v.In(set) compares v.Provider with every
+   non-nil r.Provider of the set built so far *)
+Definition stamp_in_set (a : stamp) (set : list stamp) : bool :=
+  existsb (fun b => seqb (prv a) (prv b)) set.
+Fixpoint detect_dup_stamps (set : list stamp) (vs : list (option stamp)) : v3 :=
   match vs with
   | [] => VOk
-  | v :: r => match stamp_in_set v set with
-              | Panic => VPanic
-              | Ok true => VErr
-              | _ => detect_dup_stamps (set ++ [v]) r
-              end
+  | None :: r => detect_dup_stamps set r
+  | Some v :: r => if stamp_in_set v set then VErr else detect_dup_stamps (set ++ [v]) r
   end.
-(* detectDuplicateLinks: LinkByKey(set, v.Key) - v.Key is evaluated first *)
-Fixpoint link_by_key (set : list (option link)) (k : str) : result bool :=
-  match set with
-  | [] => Ok false
-  | None :: _ => Panic
-  | Some l :: t => if seqb (lkey l) k then Ok true else link_by_key t k
-  end.
-Fixpoint detect_dup_links (set vs : list (option link)) : v3 :=
+(* detectDuplicateLinks: nil entries are skipped; LinkByKey(set, v.Key) *)
+Definition link_by_key (set : list link) (k : str) : bool :=
+  existsb (fun l => seqb (lkey l) k) set.
+Fixpoint detect_dup_links (set : list link) (vs : list (option link)) : v3 :=
   match vs with
   | [] => VOk
-  | None :: _ => VPanic
-  | Some v :: r => match link_by_key set (lkey v) with
-                   | Panic => VPanic
-                   | Ok true => VErr
-                   | _ => detect_dup_links (set ++ [Some v]) r
-                   end
+  | None :: r => detect_dup_links set r
+  | Some v :: r => if link_by_key set (lkey v) then VErr else detect_dup_links (set ++ [v]) r
   end.
 
 Definition has_none {A} (l : list (option A)) : bool :=
@@ -246,14 +160,11 @@ Definition v_dig (h : header) : v3 :=
   | None => VErr
   | Some d => if is_empty (alg d) || is_empty (dval d) then VErr else VOk
   end.
-(* fix11 = the repair adds validation.Each(validation.Required) in front of the duplicate rules *)
-Definition v_stamps (fix11 signed : bool) (h : header) : v3 :=
+(* validation.When(!signed, validation.Empty): a list holding only a nil entry is not empty *)
+Definition v_stamps (signed : bool) (h : header) : v3 :=
   if negb signed && negb (match stamps h with [] => true | _ => false end) then VErr
-  else if fix11 && has_none (stamps h) then VErr
   else detect_dup_stamps [] (stamps h).
-Definition v_links (fix11 : bool) (h : header) : v3 :=
-  if fix11 && has_none (links h) then VErr
-  else detect_dup_links [] (links h).
+Definition v_links (h : header) : v3 := detect_dup_links [] (links h).
 
-Definition validate_header (fix11 signed : bool) (h : header) : v3 :=
-  v3_and (v_uuid h) (v3_and (v_dig h) (v3_and (v_stamps fix11 signed h) (v_links fix11 h))).
+Definition validate_header (signed : bool) (h : header) : v3 :=
+  v3_and (v_uuid h) (v3_and (v_dig h) (v3_and (v_stamps signed h) (v_links h))).
